@@ -3,6 +3,7 @@ package main
 // Path exploration: forking by re-execution with decision prefixes, assumptions, obligations.
 
 import (
+	"strconv"
 	"fmt"
 	"go/token"
 	"os"
@@ -22,6 +23,7 @@ type Path struct {
 	pc       []*Term
 	known    map[int]bool // term id -> truth value implied by pc (syntactic)
 	nondets  []*Term
+	ufApps   []*Term // applications of harness-level uninterpreted functions (vUF1)
 	ndNames  []string // harness-level names
 	ndSet    map[string]bool
 	forks    [][]decision
@@ -296,7 +298,23 @@ func (ex *Exec) simplifyUnderPC(t *Term) *Term {
 	return t
 }
 
-func (ex *Exec) nondetVars() []*Term { return ex.path.nondets }
+// nondetVars: the terms whose model values make up a counterexample: the harness's nondeterministic inputs, plus the
+// applications of the harness's uninterpreted user functions (and their arguments), so that the native replay can use the
+// very interpretation the solver chose instead of an arbitrary stand-in.
+func (ex *Exec) nondetVars() []*Term {
+	p := ex.path
+	if len(p.ufApps) == 0 {
+		return p.nondets
+	}
+	out := append([]*Term{}, p.nondets...)
+	for _, u := range p.ufApps {
+		out = append(out, u)
+		if !u.Args[0].IsConst() {
+			out = append(out, u.Args[0])
+		}
+	}
+	return out
+}
 
 // assertObl checks an obligation on the current path.
 func (ex *Exec) assertObl(c *Term, id string, kf string, region *Term) {
@@ -413,6 +431,28 @@ func (ex *Exec) completeModel(m map[string]string) map[string]string {
 			bits = 0
 		}
 		out[p.ndNames[i]] = fmt.Sprintf("%s:%d", sortTag(t.Sort), bits)
+	}
+	// interpretation of the harness's uninterpreted functions at the points the path applied them
+	val := func(t *Term) (uint64, bool) {
+		if t.IsConst() {
+			return t.Bits, true
+		}
+		name := t.Name
+		if t.Op != OVar {
+			name = "t" + strconv.Itoa(t.id)
+		}
+		raw, ok := m[name]
+		if !ok {
+			return 0, false
+		}
+		return modelBits(raw, t.Sort)
+	}
+	for _, u := range p.ufApps {
+		a, ok1 := val(u.Args[0])
+		r, ok2 := val(u)
+		if ok1 && ok2 {
+			out[fmt.Sprintf("uf|%s|%s:%d", u.Name, sortTag(u.Args[0].Sort), a)] = fmt.Sprintf("%s:%d", sortTag(u.Sort), r)
+		}
 	}
 	return out
 }
